@@ -247,6 +247,9 @@ class Closure:
         return self.ev.call_fn(self.fn, a2, kw, Path({}), outer_env=self.env if self.outer is not None else None)
 
 
+_SCALAR_OPAQUE = set()      # numpy functions that may stay uninterpreted scalar atoms (none needed so far)
+
+
 class OpaqueFn:
     """callee outside the vocabulary: applications become sympy function atoms keyed by normalised name."""
 
@@ -254,16 +257,24 @@ class OpaqueFn:
         self.name = name
 
     def __call__(self, *args, **kw):
+        if self.name.startswith('numpy.') and self.name not in _SCALAR_OPAQUE:
+            # an array function without a model: inventing a scalar value for it would be unsound
+            raise Opaque('numpy function outside the model: %s' % self.name)
         flat = []
-        for a in list(args) + [kw[k] for k in sorted(kw)]:
+
+        def add(a):
             if is_arr(a):
-                flat.extend(a.flat)
+                for x in a.flat:
+                    add(x)
             elif isinstance(a, (list, tuple)):
-                flat.extend(a)
+                for x in a:
+                    add(x)
             elif isinstance(a, sp.Basic) or isinstance(a, (int, float)):
                 flat.append(a)
             else:
                 flat.append(sp.Symbol(repr(a)))
+        for a in list(args) + [kw[k] for k in sorted(kw)]:
+            add(a)
         return sp.Function(self.name)(*[sp.sympify(S(f)) if not isinstance(f, str) else sp.Symbol(f) for f in flat])
 
 
@@ -489,6 +500,16 @@ NP_FUNCS = {
     'numpy.expand_dims': lambda a, axis: np.expand_dims(np.asarray(a, dtype=object), axis), 'numpy.squeeze': lambda a, axis=None: np.squeeze(np.asarray(a, dtype=object), axis=axis),
     'numpy.reshape': lambda a, shape: np.reshape(np.asarray(a, dtype=object), shape), 'numpy.ravel': lambda a: np.ravel(np.asarray(a, dtype=object)),
     'numpy.tile': lambda a, reps: np.tile(np.asarray(a, dtype=object), (int(reps) if np.ndim(reps) == 0 else tuple(int(v) for v in np.ravel(reps)))), 'numpy.repeat': lambda a, r, axis=None: np.repeat(np.asarray(a, dtype=object), (int(r) if np.ndim(r) == 0 else [int(v) for v in np.ravel(r)]), axis=axis),
+    'numpy.block': lambda blocks: np.block([[np.asarray(b, dtype=object) for b in row] if isinstance(row, (list, tuple)) else np.asarray(row, dtype=object) for row in blocks]),
+    'numpy.ascontiguousarray': lambda a, **k: np.array(np.asarray(a, dtype=object)), 'numpy.asfortranarray': lambda a, **k: np.array(np.asarray(a, dtype=object)),
+    'numpy.copy': lambda a, **k: np.array(np.asarray(a, dtype=object)), 'numpy.linspace': lambda a, b, n_=50, **k: arr([a + (b - a) * sp.Rational(i, int(n_) - 1) for i in range(int(n_))]) if int(n_) > 1 else arr([a]),
+    'numpy.triu': lambda a, k=0: np.triu(np.asarray(a, dtype=object), k), 'numpy.tril': lambda a, k=0: np.tril(np.asarray(a, dtype=object), k),
+    'numpy.kron': lambda a, b: np.kron(np.asarray(a, dtype=object), np.asarray(b, dtype=object)),
+    'numpy.flip': lambda a, axis=None: np.flip(np.asarray(a, dtype=object), axis), 'numpy.roll': lambda a, sh, axis=None: np.roll(np.asarray(a, dtype=object), int(sh), axis),
+    'numpy.delete': lambda a, idx, axis=None: np.delete(np.asarray(a, dtype=object), idx, axis), 'numpy.insert': lambda a, idx, v, axis=None: np.insert(np.asarray(a, dtype=object), idx, v, axis),
+    'numpy.append': lambda a, v, axis=None: np.append(np.asarray(a, dtype=object), np.asarray(v, dtype=object), axis),
+    'numpy.cumsum': lambda a, axis=None: np.cumsum(np.asarray(a, dtype=object), axis), 'numpy.diff': lambda a, n=1, axis=-1: np.diff(np.asarray(a, dtype=object), int(n), axis),
+    'numpy.isin': lambda a, b: np.array([any(is_zero(sp.sympify(x) - sp.sympify(y), deep=False) for y in np.ravel(np.asarray(b, dtype=object))) for x in np.ravel(np.asarray(a, dtype=object))]).reshape(np.shape(a)),
     'numpy.column_stack': lambda xs: np.column_stack([np.asarray(x, dtype=object) for x in xs]),
     'numpy.array_equal': lambda a, b: bool(np.shape(a) == np.shape(b) and all(is_zero(sp.sympify(x) - sp.sympify(y), deep=False) for x, y in zip(np.ravel(np.asarray(a, dtype=object)), np.ravel(np.asarray(b, dtype=object))))),
     'numpy.square': lambda x: vmap(lambda e: e ** 2, x), 'numpy.negative': lambda x: vmap(lambda e: -e, x), 'numpy.fabs': lambda x: vmap(sp.Abs, x),
@@ -1185,6 +1206,10 @@ class SymEval:
                 return lambda axis=None, **k: _mean(base, axis, **k)
             if attr == 'swapaxes':
                 return lambda a, b: base.swapaxes(a, b)
+            if attr == 'to_numpy':      # arrays stand in for table columns (pandas Series) in the models
+                return lambda *a, **k: base
+            if attr == 'values':
+                return base
         if isinstance(base, sp.Basic):
             if attr == 'real':
                 return sp.re(base)
